@@ -61,8 +61,24 @@ def ifdata_number_cases():
     return cases
 
 
+def ifdata_sequence_cases():
+    """repeated members of an A2ML definition whose items are structs: complete items, an incomplete last item (the definition does
+    not fit: the content is kept uninterpreted, every token must survive), an item that starts like a sibling tag"""
+    aml = ('/begin A2ML block "IF_DATA" taggedunion { "DEMO" taggedstruct { block "PAIRS" (struct { uint; uint; })*; '
+           '"MODES" (struct { enum { "FAST" = 0, "SLOW" = 1 }; uint; })*; "SLOW"; "COUNT" uint; "TRIPLES" (struct { uint; uint; uint; })*; }; }; /end A2ML ')
+    bodies = ['/begin PAIRS 1 2 3 4 /end PAIRS COUNT 2', '/begin PAIRS 1 2 3 /end PAIRS COUNT 2', '/begin PAIRS 1 /end PAIRS', '/begin PAIRS /end PAIRS COUNT 0',
+              'MODES FAST 10 SLOW 20 SLOW COUNT 2', 'MODES FAST 10 SLOW COUNT 1', 'MODES FAST 10 SLOW', 'TRIPLES 1 2 3 4 5 COUNT 1', 'TRIPLES 1 2 3 4 COUNT 1',
+              'TRIPLES 1 2 COUNT 7', 'COUNT 1 TRIPLES 1 2 3 4 5 6 7']
+    out = []
+    for body in bodies:
+        for strict in (False, True):
+            t = 'ASAP2_VERSION 1 71 /begin PROJECT p "" /begin MODULE m "" ' + aml + '/begin IF_DATA DEMO ' + body + ' /end IF_DATA /end MODULE /end PROJECT'
+            out.append({'text': t, 'strict': strict, 'kind': 'doc'})
+    return out
+
+
 def gen_cases(rng, tier):
-    cases = boundary_cases() + ifdata_number_cases()
+    cases = boundary_cases() + ifdata_number_cases() + ifdata_sequence_cases()
     n = 200 if tier == 'quick' else 15000
     for i in range(n):
         node, text, toks = docs.random_doc(rng, size=rng.choice(['tiny', 'small', 'small', 'medium']),
